@@ -127,6 +127,8 @@ func ZZ_C02_dbiter3()      { zzDBIterWalk(comparer.DefaultComparer, 3) }
 func ZZ_C02_dbiter4()      { zzDBIterWalk(comparer.DefaultComparer, 4) }
 func ZZ_C02_dbiter5()      { zzDBIterWalk(comparer.DefaultComparer, 5) }
 func ZZ_C02_dbiter3_rank() { zzDBIterWalk(zzRankCmp{sepLen: 1}, 3) }
+func ZZ_C02_dbiter2_rev()  { zzDBIterWalk(zzRevCmp{}, 2) }
+func ZZ_C02_dbiter3_rev()  { zzDBIterWalk(zzRevCmp{}, 3) }
 
 func ZZ_C02_dbiter_witness() {
 	zzDBIterWalk(comparer.DefaultComparer, 2)
